@@ -903,7 +903,19 @@ fn child_identity(c: &mut Ctx) {
             let content = rng.bytes(len);
             let mut chunks = Vec::new();
             let mut left = len;
-            let style = rng.below(4);
+            let style = rng.below(6);
+            if style >= 4 {
+                // small header(s) first, then everything else in one large write (and the mirror)
+                let head = rng.range(1, 200) as usize;
+                if style == 4 {
+                    chunks.push(head);
+                    chunks.push(len - head);
+                } else {
+                    chunks.push(len - head);
+                    chunks.push(head);
+                }
+                left = 0;
+            }
             while left > 0 {
                 let ch = match style {
                     0 => 1.min(left) + rng.usize(3).min(left - 1.min(left)),
